@@ -854,6 +854,10 @@ def conc_corerace_gen(tier, seed):
     return [["gen", seed, 3000 if tier == "quick" else 100000, "corerace"]]
 
 
+def conc_slot_gen(tier, seed):
+    return [["gen", seed, 2500 if tier == "quick" else 120000, "slot"]]
+
+
 def conc_bridgerace_gen(tier, seed):
     return [["gen", seed, 150 if tier == "quick" else 6000, "bridgerace"]]
 
@@ -870,6 +874,7 @@ PROPS["C08"] = {
         Stream("race", "conc", "conc", conc_race_gen, shape=conc_shape, shrink=sexp_shrinks, compare_model=False),
         Stream("corerace", "conc", "conc", conc_corerace_gen, shape=conc_shape, shrink=sexp_shrinks, compare_model=False),
         Stream("bridgerace", "conc", "conc", conc_bridgerace_gen, shape=conc_shape, shrink=sexp_shrinks, compare_model=False),
+        Stream("slot", "conc", "conc", conc_slot_gen, shape=conc_shape, shrink=sexp_shrinks, compare_model=False),
     ],
     "rule": "evict: a task awaiting join!(r0..rN) whose r0 is resolved is polled by thread 0 (`is_done()`) while threads 1..N resolve "
             "r1..rN; real threads are forced through an interleaving of the crux_verif schedule points (exactly one thread runs "
@@ -886,6 +891,12 @@ PROPS["C08"] = {
             "bridgerace: the same through a bincode Bridge with 2-3 threads calling process_event / handle_response, often addressing "
             "the SAME live stream id (a schedule point inside resume is reached with the registry lock held, so the other thread "
             "blocks on the lock: such schedules are released after 80 ms and only the outcome is judged). "
+            "slot: protocol P-slot — 1-3 executor tasks (join_all of one-shot requests, legacy capability API, polls counted by a "
+            "wrapper future), 2-3 threads each calling Core::resolve on a different request (mostly of the same task), a forced "
+            "schedule of 0-27 grants over the points exec_wake:start / exec:slot_taken / exec:after_poll / exec:requeue; the harness "
+            "reports how many grants were honoured; the LTS M.Slot executes exactly those as macro-steps and then enumerates "
+            "EVERY micro-step interleaving; the observed (polls per task, tasks left in the slab, ready-channel length) must be "
+            "one of the reachable terminal outcomes — exactly one when the forced prefix covers the run. "
             "non-trivial: every case (each forces a real "
             "interleaving); distinct = distinct (constructs, schedule, result classes)",
     "level_text": "Proof (Props/C08.lean) on the LTS M.Conc (P-evict: eviction check of Command::run_task vs any number of concurrent "
@@ -894,8 +905,13 @@ PROPS["C08"] = {
                   "is never evicted, with the read order of the repaired code (invariant by induction over schedules); "
                   "evict_race_pinned_order — the read order of the pinned tree is unsafe (witness interleaving; reproduced on real "
                   "threads before the fix, see KNOWN_FINDINGS fixed: C08); evict_still_evicts. Linearizability of whole concurrent calls "
-                  "is NOT proved; it is checked on real threads against both sequential orders of M.Hosts (race stream). The executor "
-                  "slot protocol of QueuingExecutor (P-slot) and Core-level concurrent calls are not yet modelled as an LTS.",
+                  "is NOT proved; it is checked on real threads against the sequential orders of M.Hosts (race, corerace, bridgerace). "
+                  "Protocol P-slot (M.Slot: the task slots of QueuingExecutor under concurrent Core::resolve calls; micro-steps "
+                  "finer than the code's atomic sections; ANY number of threads and tasks, ANY interleaving): slot_invariant — "
+                  "the holder of an empty slot is unique, NO LOST WAKE-UP (an id sent for a live task stays in the channel or in a "
+                  "hand until a slot-take after the wake serves it), NO LOST RESPONSE; slot_quiescent — when every call has "
+                  "returned the ready channel is empty, no slot is left empty, every wake-up has been served and EVERY task all "
+                  "of whose requests were resolved has completed. Tied to the code by the slot stream.",
     "level_note": "Trusted: Lean kernel + standard axioms; the LTS M.Conc, tied to the code by replaying every enumerated interleaving "
                   "on real threads through the schedule-point hooks (semantic no-ops) and comparing outcomes exactly; sequential "
                   "consistency (the acquire fence of the fix is argued in the commit message, not proved); the schedule controller in "
@@ -1147,7 +1163,7 @@ ENGINE_TEXT = {
     "kv": "real crux_kv calls (capability + command API; Core and bincode Bridge hosts) vs M.Kv (Lean), oracle S.Kv",
     "conv": "differential driver for crux_time::protocol conversions (Rust) vs M.Conv (Lean), oracle S.Conv",
 }
-HOOK_COMMITS = ["3b3ccf0", "fd94595", "1055c0e", "261bd7a", "aabe6ae"]
+HOOK_COMMITS = ["3b3ccf0", "fd94595", "1055c0e", "261bd7a", "aabe6ae", "aa30ac4"]
 
 # Only these are listed in MANIFEST.json as claimed (the lead adds an id here once its check has been reviewed and passes).
 CLAIMED = ["C%02d" % i for i in range(1, 21)]
